@@ -258,6 +258,9 @@ def canon_place(t):
         return r[1][1]
     if r and r[0] == "deref" and isinstance(r[1], tuple) and r[1] and r[1][0] == "ref":
         return r[1][1]
+    if r and r[0] == "ref" and isinstance(r[1], tuple) and r[1] and r[1][0] == "ite":
+        # &(if c { *a } else { *b })  ->  if c { a } else { b }
+        return ("ite", r[1][1], canon_place(("ref", r[1][2])), canon_place(("ref", r[1][3])))
     return r
 
 
